@@ -795,6 +795,18 @@ def r20_1_multiset(ctx, rule: str = 'R20.1') -> List[Ob]:
                 ast.unparse(elt) == f"{g_.target.id}.spikes"
         return None
     direct = pools_all(hist.args[0]) if hist is not None and hist.args else None
+    if direct is None and hist is not None and hist.args:
+        # pooled through a SpikeTrain: `np.histogram(SpikeTrain(<pool>, ...).spikes, ...)` - the constructor keeps every given
+        # spike time (its own obligation, R20.5)
+        e_ = hist.args[0]
+        if isinstance(e_, ast.Attribute) and e_.attr == 'spikes':
+            src_ = e_.value
+            if isinstance(src_, ast.Name):
+                defs_ = [n for n in g.node.body if isinstance(n, ast.Assign) and len(n.targets) == 1
+                         and isinstance(n.targets[0], ast.Name) and n.targets[0].id == src_.id]
+                src_ = defs_[0].value if len(defs_) == 1 else src_
+            if isinstance(src_, ast.Call) and (C.dotted(src_.func) or '').split('.')[-1] == 'SpikeTrain' and src_.args:
+                direct = pools_all(src_.args[0])
     if direct is not None:
         t_ = "psth: the histogram is taken over the spikes of every train (first train plus a loop over all the others, appended)"
         obs.append(ok(rule, t_, g.loc(), construct=f"{gn}::pool") if direct else
@@ -1408,4 +1420,86 @@ def r20_4_poisson(ctx, rule: str = 'R20.4') -> List[Ob]:
                              detail='; '.join(ast.unparse(d)[:80] for d in defs)))
     else:
         obs.append(inconclusive(rule, t3, f.loc(), 'the cumulated array is not a plain local', construct=f"{fn}::poisson::draws"))
+    return obs
+
+
+# ======================================================================================
+# SpikeTrain.__init__: the spike times are stored as given (sorted when asked to), none dropped, none changed
+# ======================================================================================
+MULTISET_PRESERVING = {'np.array', 'np.asarray', 'np.sort', 'np.copy', 'np.asanyarray', 'np.ascontiguousarray', 'np.atleast_1d', 'sorted',
+                       'list', 'tuple', 'np.float64'}
+
+
+def r_spiketrain_ctor(ctx, rule: str) -> List[Ob]:
+    repo = ctx.repo
+    if not repo.has_func('pyspike.SpikeTrain', 'SpikeTrain.__init__'):
+        return [inconclusive(rule, 'SpikeTrain.__init__ is found', 'pyspike/SpikeTrain.py', construct='SpikeTrain.__init__')]
+    f = repo.func('pyspike.SpikeTrain', 'SpikeTrain.__init__')
+    fn = _fn(f)
+    ps = [a.arg for a in f.node.args.args]
+    obs: List[Ob] = []
+    if len(ps) < 3:
+        return [inconclusive(rule, 'SpikeTrain.__init__(self, spike_times, edges, ...)', f.loc(), construct=fn)]
+    me, spikes_p = ps[0], ps[1]
+    local: Dict[str, ast.AST] = {}
+    for n in ast.walk(f.node):
+        if isinstance(n, ast.Assign) and len(n.targets) == 1 and isinstance(n.targets[0], ast.Name):
+            local[n.targets[0].id] = n.value
+
+    def chain(e, depth=0):
+        """-> (list of wrapper names, root expression)"""
+        names = []
+        while depth < 12:
+            depth += 1
+            if isinstance(e, ast.Call):
+                d = C.dotted(e.func) or ast.unparse(e.func)
+                if isinstance(e.func, ast.Attribute) and e.func.attr in ('copy', 'astype', 'tolist') and not isinstance(e.func.value, ast.Name):
+                    names.append('.' + e.func.attr)
+                    e = e.func.value
+                    continue
+                if isinstance(e.func, ast.Attribute) and e.func.attr in ('copy', 'astype') and isinstance(e.func.value, ast.Name) \
+                        and e.func.value.id not in ('np', 'numpy'):
+                    names.append('.' + e.func.attr)
+                    e = e.func.value
+                    continue
+                if e.args:
+                    names.append(d)
+                    e = e.args[0]
+                    continue
+                return names, e
+            if isinstance(e, ast.Name) and e.id in local and e.id != spikes_p:
+                e = local[e.id]
+                continue
+            if isinstance(e, ast.IfExp):
+                a1, r1 = chain(e.body, depth)
+                a2, r2 = chain(e.orelse, depth)
+                return names + a1 + a2, (r1 if ast.dump(r1) == ast.dump(r2) else e)
+            return names, e
+        return names, e
+    stores = [n for n in ast.walk(f.node) if isinstance(n, ast.Assign) and any(
+        isinstance(t_, ast.Attribute) and isinstance(t_.value, ast.Name) and t_.value.id == me and t_.attr == 'spikes' for t_ in n.targets)]
+    t = ("SpikeTrain.__init__: the stored spike times are the given ones - converted to an array, sorted when `is_sorted` is False - "
+         "none dropped, none altered (duplicates are the business of reconcile_spike_trains)")
+    if not stores:
+        return [inconclusive(rule, t, f.loc(), 'no store into self.spikes found', construct=f"{fn}::spikes")]
+    bad = []
+    sorts = False
+    for st in stores:
+        names, root = chain(st.value)
+        other = [n_ for n_ in names if n_ not in MULTISET_PRESERVING and n_ not in ('.copy', '.astype')]
+        if other or not (isinstance(root, ast.Name) and root.id == spikes_p):
+            bad.append((st, other, ast.unparse(root)[:40]))
+        if 'np.sort' in names or 'sorted' in names:
+            sorts = True
+    inplace_sort = any(isinstance(n, ast.Call) and isinstance(n.func, ast.Attribute) and n.func.attr == 'sort' for n in ast.walk(f.node))
+    if bad:
+        st, other, root = bad[0]
+        obs.append(violation(rule, t, f.loc(st), key=f"{fn}::spikes-stored::{'/'.join(other) or root}",
+                             detail=f"`{ast.unparse(st)[:120]}`: " + (f"{', '.join(other)} does not keep every given spike time"
+                                                                      if other else f"the stored value does not come from `{spikes_p}`")))
+    else:
+        obs.append(ok(rule, t, f.loc(stores[0]), construct=f"{fn}::spikes"))
+    t2 = "SpikeTrain.__init__: unsorted input (`is_sorted=False`) is sorted"
+    obs.append(ok(rule, t2, f.loc(), construct=f"{fn}::sorts") if (sorts or inplace_sort) else
+               violation(rule, t2, f.loc(), key=f"{fn}::no-sort"))
     return obs
